@@ -26,11 +26,32 @@ func IndexTable(db objects.Store, tblSum []byte, tbl *objects.Table, logger logr
 	)
 	logger = logger.WithName("IndexTable")
 	logger.Info("indexing table", "sum", tblSum)
+	// table might come from an untrusted source so make sure that its blocks
+	// really have the shape that the table claims
+	nCols := len(tbl.Columns)
+	for _, k := range tbl.PK {
+		if int(k) >= nCols {
+			return fmt.Errorf("primary key index %d out of range (%d columns)", k, nCols)
+		}
+	}
+	if len(tbl.BlockIndices) != len(tbl.Blocks) {
+		return fmt.Errorf("number of block indices does not match number of blocks: %d != %d", len(tbl.BlockIndices), len(tbl.Blocks))
+	}
+	var rowsCount uint32
 	for i, sum := range tbl.Blocks {
 		blk, bb, err = objects.GetBlock(db, bb, sum)
 		if err != nil {
 			return fmt.Errorf("GetBlock: %v", err)
 		}
+		if len(blk) == 0 || len(blk) > objects.BlockSize || (i < len(tbl.Blocks)-1 && len(blk) != objects.BlockSize) {
+			return fmt.Errorf("block at offset %d has invalid number of rows: %d", i, len(blk))
+		}
+		for j, row := range blk {
+			if len(row) != nCols {
+				return fmt.Errorf("row %d of block at offset %d has %d values instead of %d", j, i, len(row), nCols)
+			}
+		}
+		rowsCount += uint32(len(blk))
 		if len(tbl.PK) > 0 {
 			tblIdx[i] = slice.IndicesToValues(blk[0], tbl.PK)
 		} else {
@@ -54,6 +75,9 @@ func IndexTable(db objects.Store, tblSum []byte, tbl *objects.Table, logger logr
 		if !bytes.Equal(blkIdxSum, tbl.BlockIndices[i]) {
 			return fmt.Errorf("block index at offset %d has different sum: %x != %x", i, blkIdxSum, tbl.BlockIndices[i])
 		}
+	}
+	if rowsCount != tbl.RowsCount {
+		return fmt.Errorf("rows count does not match: %d != %d", rowsCount, tbl.RowsCount)
 	}
 	buf.Reset()
 	_, err = objects.WriteBlockTo(enc, buf, tblIdx)
